@@ -9,7 +9,7 @@
    the extracted model (stream spec) and is therefore bounded in the number of repetitions. *)
 
 From Coq Require Import Strings.String.
-From SwiftMT Require Import Base.Bytes Engine.Layout Engine.Tokens Engine.Facts Engine.Replay Engine.Instance Engine.Extract Engine.Factor Engine.FactorInstance Engine.Regex Engine.Abs Engine.AbsSound Engine.Total Engine.AbsInstance Engine.AbsResult gen.Specs Engine.AbsBytes.
+From SwiftMT Require Import Base.Bytes Engine.Layout Engine.Tokens Engine.Facts Engine.Replay Engine.Instance Engine.Extract Engine.Factor Engine.FactorInstance Engine.Regex Engine.Abs Engine.AbsSound Engine.Total Engine.AbsInstance Engine.AbsCommon Engine.AbsResult gen.Specs Engine.AbsBytes.
 
 (* one accepted message of a structure => every message with the same tags whose contents the
    same field parsers accept is accepted, with the same field types, letters and tags in order *)
